@@ -61,17 +61,17 @@ type Action struct {
 
 // Result is what the harness observed from one call.
 type Result struct {
-	Code      uint32     `json:"code"`
-	Codespace string     `json:"codespace,omitempty"`
-	Class     string     `json:"class"` // ok | rej_pre (no fee taken) | rej_post (fee taken) | halt | n/a
-	Log       string     `json:"log,omitempty"`
-	Updates   [][2]int64 `json:"updates"` // [id, power] as returned (InitChain / EndBlock)
-	UpdDup    bool       `json:"upddup,omitempty"`
-	Hash      string     `json:"hash,omitempty"`
-	Halt      string     `json:"halt,omitempty"`
-	Events    string     `json:"events,omitempty"` // digest of consensus-relevant response fields
-	Value     string     `json:"value,omitempty"`
-	TmErr     string     `json:"tmerr"` // error of Tendermint's UpdateWithChangeSet on the returned updates ("" = applied)
+	Code      uint32      `json:"code"`
+	Codespace string      `json:"codespace,omitempty"`
+	Class     string      `json:"class"` // ok | rej_pre (no fee taken) | rej_post (fee taken) | halt | n/a
+	Log       string      `json:"log,omitempty"`
+	Updates   [][2]int64  `json:"updates"` // [id, power] as returned (InitChain / EndBlock)
+	UpdDup    bool        `json:"upddup,omitempty"`
+	Hash      string      `json:"hash,omitempty"`
+	Halt      string      `json:"halt,omitempty"`
+	Events    string      `json:"events,omitempty"` // digest of consensus-relevant response fields
+	Value     string      `json:"value,omitempty"`
+	TmErr     string      `json:"tmerr"`          // error of Tendermint's UpdateWithChangeSet on the returned updates ("" = applied)
 	QAns      [][2]string `json:"qans,omitempty"` // Commit: [kind, digest of the answer] for every query kind, asked right after it
 	QD        string      `json:"qd,omitempty"`   // Query: digest of the answer
 }
@@ -308,8 +308,9 @@ type Runner struct {
 	Halted    string
 	// TM is a real Tendermint validator set to which every returned update batch is applied
 	// with Tendermint's own UpdateWithChangeSet (oracle for "can be applied", C05)
-	TM   *tmtypes.ValidatorSet
-	Tick int64 // current block time in ticks
+	TM      *tmtypes.ValidatorSet
+	Tick    int64 // current block time in ticks
+	inBlock bool  // between BeginBlock and Commit
 	// what a crash rolls the environment back to (taken at every Commit): header, block time,
 	// Tendermint's validator set, the transactions that exist as far as the chain is concerned
 	cp struct {
@@ -423,6 +424,7 @@ func (r *Runner) Exec(act Action) (res Result) {
 		res.Events = evDigest(res.Updates)
 		res.TmErr = r.applyTM(out.Validators)
 	case "BeginBlock":
+		r.inBlock = true
 		r.Tick += act.Dt
 		h := a.B.LastBlockHeight() + 1
 		hdr := abci.Header{ChainID: a.Cfg.ChainID, Height: h, Time: tickTime(r.Tick), ProposerAddress: a.Addr(act.Prop)}
@@ -491,6 +493,7 @@ func (r *Runner) Exec(act Action) (res Result) {
 		res.Events = evDigest(res.Updates, evStr(out.Events))
 		res.TmErr = r.applyTM(out.ValidatorUpdates)
 	case "Commit":
+		r.inBlock = false
 		out := a.B.Commit()
 		res.Hash = hex.EncodeToString(out.Data)
 		for _, h := range a.Pending {
@@ -509,6 +512,7 @@ func (r *Runner) Exec(act Action) (res Result) {
 		if !r.cp.ok {
 			panic("Crash before the first Commit is not offered by the specification")
 		}
+		r.inBlock = false
 		na, err := New(a.Cfg, a.DB, a.RPC)
 		if err != nil {
 			panic(err)
@@ -524,6 +528,13 @@ func (r *Runner) Exec(act Action) (res Result) {
 	case "ExportImport":
 		// stop this chain after a Commit, export its state, start a NEW chain (fresh database, height 0)
 		// from the export; the genesis time is the current block time
+		if r.inBlock { // (asked for while a block is open: that block is ended and committed first)
+			if x := r.Exec(Action{A: "EndBlock"}); x.Class == "halt" {
+				return x
+			}
+			r.Exec(Action{A: "Commit"})
+			a = r.A
+		}
 		gen := a.ExportState()
 		na, err := New(a.Cfg, nil, a.RPC)
 		if err != nil {
